@@ -592,3 +592,7 @@ WHF = "src/wormhole/wormhole.py"
 MUTANTS.append(Mutant("delegate-received-buffers", WHF, "    def received(self, plaintext):\n        self._delegate.wormhole_got_message(plaintext)",
                       "    def received(self, plaintext):\n        if not getattr(self, \"_have_versions\", True):\n            return\n        self._delegate.wormhole_got_message(plaintext)", "C03.R8", "seed C03-16 family"))
 MUTANTS.append(Mutant("observer-canceller-only-when-waiting", OBS, "        d = Deferred(self._forget_observer)\n", "        d = Deferred() if self._results else Deferred(self._forget_observer)\n", "C03.R3", "seed C03-17"))
+
+MUTANTS.append(Mutant("second-reader-with-timeout", "src/wormhole/wormhole.py", "        return self._received_observer.when_next_event()\n\n    def allocate_code(self, code_length=2):\n        self._boss.allocate_code(code_length)\n",
+                      "        return self._received_observer.when_next_event()\n\n    def get_message_or_timeout(self, timeout):\n        from twisted.internet.defer import Deferred\n        waiter = Deferred()\n        timer = self._reactor.callLater(timeout, waiter.errback, failure.Failure(WormholeClosed()))\n\n        def _arrived(res):\n            if timer.active():\n                timer.cancel()\n                waiter.callback(res)\n        self.get_message().addBoth(_arrived)\n        return waiter\n\n    def allocate_code(self, code_length=2):\n        self._boss.allocate_code(code_length)\n", "C03.R9", "seed C03-18"))
+MUTANTS.append(Mutant("echo-only-while-pending", _MB, "        if side == self._side:\n            self.rx_message_ours", "        if side == self._side and phase in self._pending_outbound:\n            self.rx_message_ours", ("C03.R10", "C03.R"), "draft of seed C03-19"))
